@@ -86,7 +86,7 @@ class Gen:
                 node['plan']['default_none'] = True      # get_default returns None: a value, not "no default"
         if will_fail:
             style = rng.random()
-            exc = rng.choice(['E1', 'E1', 'E2', 'EOther', 'E1Sub', 'EFalsy', 'ERt', 'EKey'])
+            exc = rng.choice(['E1', 'E1', 'E2', 'EOther', 'E1Sub', 'EFalsy', 'ERt', 'EKey', 'ETimeout'])
             if rng.random() < p.get('p_fatal', 0.0):
                 # a BaseException (incl. a CancelledError the body raises itself): propagated by run()
                 node['plan']['fail'] = ['ALWAYS', rng.choice(['Fatal', 'ECancel'])]
@@ -803,7 +803,7 @@ class Gen:
             self.decorate(mid, allow_fail=rng.random() < 0.3)
             self.finish(mid)
             sub.append(mid['id'])
-        mx = rng.randint(1, 3)
+        mx = rng.choice([0, 1, 1, 2, 2, 3, 3])      # max_iterations=0: no re-iteration is allowed at all
         dest = self.new_node(kind='dest', recurrent=True)
         did = dest['id']
         self.flags[did].add('dest')
@@ -817,7 +817,7 @@ class Gen:
         if rng.random() < self.p.get('p_falsy_ad', 0.15):
             # the payload of next_iteration() is falsy (0, '', False, ()): still has to reach the start node
             dest['plan'].pop('want_iter')
-            dest['plan']['iter_by_attempt'] = rng.randint(1, mx)
+            dest['plan']['iter_by_attempt'] = rng.randint(1, max(1, mx))
             dest['plan']['falsy_ad'] = [rng.choice([0, '', False, []])]
         # nodes really on a dependency path start -> dest (dangling mids are not part of the subgraph)
         on_path = set()
